@@ -94,6 +94,10 @@ def known_key(value):
         pre = LEFT.strip()
         if pre and value.endswith(pre[::-1]):
             return "value-ends-with-mirrored-prefix"
+    if KIND in ("lic", "con"):
+        for p in PY_COPY:
+            if p.search(value + RIGHT) is not None:
+                return "tag-value-read-as-copyright"
     if KIND == "cop" and RIGHT.strip() and END_ONLY.fullmatch(RIGHT.strip()) is None:
         # right-hand decoration that is no terminator (the mirrored frame '*|'): only the tag patterns
         # get the mirrored-prefix treatment, copyright lines keep it
@@ -107,6 +111,12 @@ def story(c0, c1):
     got = read(line)
     want = [(TAGS[KIND] + " " + value) if KIND == "cop" else value]
     ok = len(got) == 1 and got[0] == want[0]
+    if ok and KIND in ("lic", "con"):
+        # "... and the other kinds are empty": the line must not ALSO be read as a copyright notice
+        for p in PY_COPY:
+            m = p.search(line)
+            if m is not None:
+                return False, value, line, got + ["(also read as copyright notice)"], want
     return ok, value, line, got, want
 
 
